@@ -130,3 +130,18 @@ package action
 //@   ensures [reset-then-reuse] !old(u.ResetValues) && !old(u.ReuseValues) && old(u.ResetThenReuseValues) ==> err == nil && result == coalT(newVals, old(current.Config)) && chart.Values == old(chart.Values)
 //@   ensures [default-new] !old(u.ResetValues) && !old(u.ReuseValues) && !old(u.ResetThenReuseValues) && !(len(newVals) == 0 && old(len(current.Config)) > 0) ==> err == nil && result == newVals && chart.Values == old(chart.Values)
 //@   ensures [default-old] !old(u.ResetValues) && !old(u.ReuseValues) && !old(u.ResetThenReuseValues) && len(newVals) == 0 && old(len(current.Config)) > 0 ==> err == nil && result == old(current.Config) && chart.Values == old(chart.Values)
+
+// ---- C06: dry-run never mutates the cluster or the release history
+
+//@ ghost func installDryRun(i *Install) bool = i.DryRun || i.DryRunOption == "client" || i.DryRunOption == "server" || i.DryRunOption == "true"
+
+//@ func (*Install).isDryRun
+//@   props C06
+//@   requires i != nil
+//@   ensures [def] result == installDryRun(i)
+
+//@ func (*Install).RunWithContext
+//@   props C06
+//@   requires i != nil && i.cfg != nil && i.cfg.KubeClient != nil && i.cfg.Releases != nil && chrt != nil
+//@   ensures [dry-run-no-cluster-mutation] old(installDryRun(i)) ==> Kmutated == old(Kmutated)
+//@   ensures [dry-run-no-storage-write] old(installDryRun(i)) ==> Dwritten == old(Dwritten)
